@@ -77,7 +77,8 @@ def strategy_c10(draw):
     if kind in ("split", "merge"):
         prof["min_nl"] = 1 if kind == "split" else 2
         prof["max_nl"] = 3
-        prof["limit_pats"] = [("two", 3), ("le", 2), ("ge", 1)] if kind == "split" else [("le", 1)]
+        prof["limit_pats"] = ([("two", 3), ("le", 2), ("ge", 1)] if kind == "split"
+                              else [("le", 4), ("eq", 3), ("ge", 2), ("two", 1)])
     if kind == "splitlin":
         prof["max_lin"] = 3
         prof["limit_pats"] = [("two", 4), ("le", 2), ("ge", 2)]
@@ -234,14 +235,22 @@ def restate(kind, base):
             L["pos"] = 50 + r     # ... then the linear ones
         return a, b, True
     if kind == "merge":
-        # merge the first two nonlinear objects (in call order) when both are one-sided 'le'
+        # merge the first two nonlinear objects (in call order) when that keeps the order of the internal rows:
+        # per object cobyqa lists the lower-side rows, then the upper-side rows, and the equalities apart, so
+        # L1 U1 L2 U2 equals L1 L2 U1 U2 iff the first object has no upper-side row or the second no lower-side row
         nl = list(range(len(b["nl"])))
         if len(nl) < 2:
             return a, b, False
         i, j = nl[0], nl[1]
         N1, N2 = b["nl"][i], b["nl"][j]
-        ok = all(np.all(np.array(N["lb"], float) == -math.inf) and np.all(np.isfinite(np.array(N["ub"], float)))
-                 and not N.get("args") for N in (N1, N2))
+        def sides(N):
+            lo, hi = np.array(N["lb"], float), np.array(N["ub"], float)
+            if np.any(np.isnan(lo)) or np.any(np.isnan(hi)) or N.get("args") or np.ndim(N["lb"]) == 0:
+                return None
+            ineq = lo != hi
+            return bool(np.any(ineq & np.isfinite(lo))), bool(np.any(ineq & np.isfinite(hi)))
+        s1, s2 = sides(N1), sides(N2)
+        ok = s1 is not None and s2 is not None and (not s1[1] or not s2[0])
         if not ok:
             return a, b, False
         merged = {"comps": copy.deepcopy(N1["comps"]) + copy.deepcopy(N2["comps"]), "form": "NC",
